@@ -5,13 +5,13 @@
 package probe
 
 import (
-	"sync/atomic"
 	"fmt"
 	"math"
 	"sort"
 	"strconv"
 	"strings"
 	"sync"
+	"sync/atomic"
 
 	"github.com/GuanceCloud/platypus/pkg/ast"
 	plrt "github.com/GuanceCloud/platypus/pkg/engine/runtime"
@@ -221,6 +221,13 @@ func sigOf(ctx *plrt.Task) *Sig {
 	return nil
 }
 
+// Note records r in the trace of the run ctx belongs to (harness-side observations).
+func Note(ctx *plrt.Task, r Rec) {
+	if s := sigOf(ctx); s != nil {
+		s.Trace = append(s.Trace, r)
+	}
+}
+
 func anyCheck(*plrt.Task, *ast.CallExpr) *errchain.PlError { return nil }
 
 // V1 returns the probe functions for the v1 interpreter.
@@ -300,6 +307,7 @@ type Trace2 struct {
 	mu    sync.Mutex
 	Trace []Rec
 	Sig   *Sig // optional: the signal of the run, so records know whether it had fired
+	Mode  int64 // what pmode() returns during this run
 }
 
 func (t *Trace2) add(r Rec) {
@@ -469,6 +477,19 @@ func V2() map[string]*runtimev2.Fn {
 	}
 	// pmulti(v...) returns all its arguments as separate values.
 	multi := []*runtimev2.Param{{Name: "vals", Variable: true}}
+	// pmode() returns a number the harness chooses per run: the same loaded script takes another path the next time.
+	fns["pmode"] = &runtimev2.Fn{
+		CallCheck: chk(none),
+		Call: func(ctx *runtimev2.Task, e *ast.CallExpr) *errchain.PlError {
+			var m int64
+			if t := trace2(ctx); t != nil {
+				m = t.Mode
+			}
+			ctx.Regs.ReturnAppend(runtimev2.V{V: m, T: ast.Int})
+			return nil
+		},
+		Desc: runtimev2.FnDesc{Name: "pmode", Params: none},
+	}
 	fns["pmulti"] = &runtimev2.Fn{
 		CallCheck: chk(multi),
 		Call: func(ctx *runtimev2.Task, e *ast.CallExpr) *errchain.PlError {
